@@ -47,238 +47,259 @@ def arr_tokens(a):
     return out
 
 
+
+def _uninterpretable(i, pid):
+    """an exception while a case was being built from what the library returned: a verdict about the library (the stream runs
+    on the unchanged tree with many seeds without ever getting here), not a crash of the check"""
+    import traceback
+    return {"stream": "uninterpretable", "op": "uninterpretable", "term": "[true; false; true; true]",
+            "input": {"case_number": i}, "impl_repr": "the case could not be built / interpreted: " + traceback.format_exc()[-700:],
+            "meta": {"impl_raised": True}, "sig": ["uninterpretable", pid, i], "trivial": False,
+            "hist": {"op": "uninterpretable"}}
+
+
 def generate(ctx):
     rng = ctx.rng
     cases = []
     for i in range(ctx.budget(140, 1200)):
-        types = ["int64", "double", "string", "bool"]
-        schema = gen.spice_names(rng, gen.gen_schema(rng, 3, types=types))
-        n = rng.randint(0, 6 if ctx.tier == "quick" else 10)
-        # numpy hands ints with nulls over as floats: keep int fields null-free so that values compare exactly
-        rows_g = gen.gen_rows(rng, schema, n, max_len=4, null_p=0.0)
-        for r in rows_g:
-            if r is not None:
-                for nm, t in schema:
-                    if t in ("double", "string") and r[nm] and rng.random() < 0.3:
-                        r[nm][rng.randrange(len(r[nm]))] = None
-        recipe = fo.LAYOUTS[i % len(fo.LAYOUTS)] if i < len(fo.LAYOUTS) else rng.choice(fo.LAYOUTS)
-        inp = ao.mk_input(rng, content=(schema, rows_g), recipe=recipe if recipe != "history" else "fresh", recipes=fo.LAYOUTS)
-        if inp["built"][0] != "ok":
-            continue
-        names = [nm for nm, _ in schema]
-        nf, labels, label_kind = fo.make_frame(rng, inp)
-        rows = fo.rows_rm(inp["ca"])
-        repeated = len(set(labels)) != len(labels)
-        kind = ["reduce"] * 7 + ["count", "count_by", "reduce_dotted"]
-        kind = kind[i % len(kind)]
-        before = fo.snapshot(nf)
-        if kind.startswith("reduce"):
-            sel = []
-            for _ in range(rng.randint(1, 5)):
-                sel.append(rng.choice(["x", "y", f"n.{rng.choice(names)}", f"n.{rng.choice(names)}", "other.q"]))
-            extra = [rng.choice([7, 2.5, "not_a_column", None]) for _ in range(rng.randint(0, 2))]
-            if extra and isinstance(extra[0], str) and extra[0] in nf.columns:
-                extra = []
-            if extra and rng.random() < 0.4:
-                # after the first non-column argument everything is an extra argument, also a string that spells a column
-                extra += [rng.choice(["x", f"n.{names[0]}", "other.q"])]
-            kwargs = {k: rng.choice([1, "z"]) for k in rng.sample(["alpha", "beta"], rng.randint(0, 2))}
-            shape = rng.choice(["scalar", "tuple", "dict", "dotted"]) if kind == "reduce" else "dotted"
-            calls = []
-            counter = [0]
-            dotted_variant = rng.randint(0, 1)
+        try:
+            types = ["int64", "double", "string", "bool"]
+            schema = gen.spice_names(rng, gen.gen_schema(rng, 3, types=types))
+            n = rng.randint(0, 6 if ctx.tier == "quick" else 10)
+            # numpy hands ints with nulls over as floats: keep int fields null-free so that values compare exactly
+            rows_g = gen.gen_rows(rng, schema, n, max_len=4, null_p=0.0)
+            for r in rows_g:
+                if r is not None:
+                    for nm, t in schema:
+                        if t in ("double", "string") and r[nm] and rng.random() < 0.3:
+                            r[nm][rng.randrange(len(r[nm]))] = None
+            recipe = fo.LAYOUTS[i % len(fo.LAYOUTS)] if i < len(fo.LAYOUTS) else rng.choice(fo.LAYOUTS)
+            inp = ao.mk_input(rng, content=(schema, rows_g), recipe=recipe if recipe != "history" else "fresh", recipes=fo.LAYOUTS)
+            if inp["built"][0] != "ok":
+                continue
+            names = [nm for nm, _ in schema]
+            nf, labels, label_kind = fo.make_frame(rng, inp)
+            rows = fo.rows_rm(inp["ca"])
+            repeated = len(set(labels)) != len(labels)
+            kind = ["reduce"] * 7 + ["count", "count_by", "reduce_dotted"]
+            kind = kind[i % len(kind)]
+            before = fo.snapshot(nf)
+            if kind.startswith("reduce"):
+                # now and then a base column named like a field of the nest (the same name in two layers, asked for in one call)
+                dup = names[0] if (rng.random() < 0.3 and names[0] not in ("x", "y", "w", "n", "other")) else None
+                if dup:
+                    nf[dup] = [1000 + j for j in range(len(nf))]
+                    before = fo.snapshot(nf)
+                sel = []
+                for _ in range(rng.randint(1, 5)):
+                    sel.append(rng.choice(["x", "y", f"n.{rng.choice(names)}", f"n.{rng.choice(names)}", "other.q"] + ([dup, dup] if dup else [])))
+                extra = [rng.choice([7, 2.5, "not_a_column", None]) for _ in range(rng.randint(0, 2))]
+                if extra and isinstance(extra[0], str) and extra[0] in nf.columns:
+                    extra = []
+                if extra and rng.random() < 0.4:
+                    # after the first non-column argument everything is an extra argument, also a string that spells a column
+                    extra += [rng.choice(["x", f"n.{names[0]}", "other.q"])]
+                kwargs = {k: rng.choice([1, "z"]) for k in rng.sample(["alpha", "beta"], rng.randint(0, 2))}
+                shape = rng.choice(["scalar", "tuple", "dict", "dotted"]) if kind == "reduce" else "dotted"
+                calls = []
+                counter = [0]
+                dotted_variant = rng.randint(0, 1)
 
-            def func(*a, **kw):
-                calls.append((a, dict(kw)))
-                k = counter[0]
-                counter[0] += 1
-                if shape == "scalar":
-                    return k * 10
-                if shape == "tuple":
-                    return (k, k + 0.5)
-                if shape == "dict":
-                    return {"u": k, "v": f"s{k}"}
-                if dotted_variant == 0:
-                    return {"u": k, "out.a": np.arange(k % 3), "out.b": np.arange(k % 3) * 2.0}
-                # plain outputs whose names START like the nested output's name, interleaved with the dotted ones
-                return {"out_n": k + 1, "out.a": np.arange(k % 3), "u": k, "outmax": 2 * k, "out.b": np.arange(k % 3) * 2.0}
+                def func(*a, **kw):
+                    calls.append((a, dict(kw)))
+                    k = counter[0]
+                    counter[0] += 1
+                    if shape == "scalar":
+                        return k * 10
+                    if shape == "tuple":
+                        return (k, k + 0.5)
+                    if shape == "dict":
+                        return {"u": k, "v": f"s{k}"}
+                    if dotted_variant == 0:
+                        return {"u": k, "out.a": np.arange(k % 3), "out.b": np.arange(k % 3) * 2.0}
+                    # plain outputs whose names START like the nested output's name, interleaved with the dotted ones
+                    return {"out_n": k + 1, "out.a": np.arange(k % 3), "u": k, "outmax": 2 * k, "out.b": np.arange(k % 3) * 2.0}
 
-            def run():
-                out = nf.reduce(func, *sel, *extra, **kwargs)
-                assert isinstance(out, NestedFrame), "not a NestedFrame"
-                assert len(calls) == len(nf), f"{len(calls)} calls for {len(nf)} rows"
-                assert [repr(v) for v in out.index] == [repr(v) for v in labels], "result index differs from the input's (or rows multiplied)"
-                m = len(nf)
-                if shape == "scalar":
-                    assert [int(v) for v in out.iloc[:, 0]] == [k * 10 for k in range(m)] if m else True
-                elif shape == "tuple":
-                    assert m == 0 or ([int(v) for v in out.iloc[:, 0]] == list(range(m)) and [float(v) for v in out.iloc[:, 1]] == [k + 0.5 for k in range(m)])
-                elif shape == "dict":
-                    assert m == 0 or ([int(v) for v in out["u"]] == list(range(m)) and list(out["v"]) == [f"s{k}" for k in range(m)])
-                elif m:
-                    assert [int(v) for v in out["u"]] == list(range(m))
-                    if dotted_variant == 1:
-                        assert [int(v) for v in out["out_n"]] == [k + 1 for k in range(m)] and [int(v) for v in out["outmax"]] == [2 * k for k in range(m)], \
-                            "plain outputs lost or changed"
-                    assert sorted(map(str, out.columns)) == sorted(["u", "out"] + (["out_n", "outmax"] if dotted_variant else [])), \
-                        f"result columns {list(out.columns)}: not exactly what the function returned"
-                    assert "out" in out.nested_columns and list(out["out"].nest.fields) == ["a", "b"], "dotted outputs not packed into a nested column"
-                    got = out["out"].array.chunked_array.to_pylist()
-                    assert [None if g is None else (list(g["a"]), list(g["b"])) for g in got] == \
-                        [(list(range(k % 3)), [x * 2.0 for x in range(k % 3)]) for k in range(m)], "packed outputs differ from what the function returned"
-                return True
-            res = attempt(run)
-            unchanged = fo.snapshot(nf) == before
-            # the recorded calls -> coq
-            otherv = nf["other"].array.chunked_array.to_pylist()
-            ok_extra = True
-            impl_calls = []
-            for j, (a, kw) in enumerate(calls):
-                ncol = len(sel)
-                ok_extra = ok_extra and len(a) == ncol + len(extra) and [repr(x_) for x_ in a[ncol:]] == [repr(x_) for x_ in extra] and kw == kwargs
-                rowt = []
-                for c, v in zip(sel, a[:ncol]):
-                    if c in ("x", "y"):
-                        rowt.append("(RBase (%s))" % cq_val(tok(v if not isinstance(v, np.generic) else v.item())))
-                    elif c == "other.q":
-                        rowt.append("(RNested %s)" % cq_vals(arr_tokens(v) if (j < len(otherv) and otherv[j] is not None) else []))
-                    else:
-                        rowt.append("(RNested %s)" % cq_vals(arr_tokens(v) if (j < len(rows) and rows[j] is not None) else []))
-                impl_calls.append(cq_list(rowt))
-            # model columns: the nested column 'n' is rows; 'other' is a second nested column: handled as its own rows
-            # (one nested column per Coq call list: columns of `other` are checked python-side)
-            cols_t = []
-            for c in sel:
-                if c == "x":
-                    cols_t.append("(CBaseCol %s)" % cq_vals(list(range(len(rows)))))
-                elif c == "y":
-                    cols_t.append("(CBaseCol %s)" % cq_vals(list(nf["y"])))
-                elif c == "other.q":
-                    cols_t.append("(CBaseCol %s)" % cq_list("VNull" for _ in rows))     # placeholder, compared python-side
-                else:
-                    cols_t.append(f"(CNestField {names.index(c.split('.')[1])})")
-            # replace placeholder positions in impl by RBase VNull and verify those python-side
-            py_other_ok = True
-            fixed_calls = []
-            for j, (a, kw) in enumerate(calls):
-                parts = []
-                for c, v in zip(sel, a[:len(sel)]):
-                    if c == "other.q":
-                        want = [] if (j >= len(otherv) or otherv[j] is None) else list(otherv[j]["q"])
-                        got = arr_tokens(v) if (j < len(otherv) and otherv[j] is not None) else []
-                        py_other_ok = py_other_ok and [None if (isinstance(g, float) and g != g) else g for g in got] == want
-                        parts.append("(RBase VNull)")
-                    else:
-                        parts.append(None)
-                fixed_calls.append(parts)
-            impl_rows = []
-            for j, (a, kw) in enumerate(calls):
-                rowt = []
-                for idx, (c, v) in enumerate(zip(sel, a[:len(sel)])):
-                    if fixed_calls[j][idx] is not None:
-                        rowt.append(fixed_calls[j][idx])
-                    elif c in ("x", "y"):
-                        rowt.append("(RBase (%s))" % cq_val(tok(v.item() if isinstance(v, np.generic) else v)))
-                    else:
-                        rowt.append("(RNested %s)" % cq_vals(arr_tokens(v) if (j < len(rows) and rows[j] is not None) else []))
-                impl_rows.append(cq_list(rowt))
-            impl_t = cq_list(impl_rows)
-            # the glue around the calls (Reduce2.v): which arguments were taken for columns, how the outputs were packed
-            all_args = list(sel) + list(extra)
-
-            def cq_s(x):
-                return "[" + "; ".join(str(ord(ch)) for ch in x) + "]"
-
-            def cq_parg(j, a_):
-                return f"(AStr {cq_s(a_)})" if isinstance(a_, str) else f"(AOther {j})"
-            known_strs = sorted({a_ for a_ in all_args if isinstance(a_, str) and (a_ in ("x", "y", "w", "other.q") or (a_.startswith("n.") and a_[2:] in names))})
-            args_t = cq_list(cq_parg(j, a_) for j, a_ in enumerate(all_args))
-            if calls:
-                a0 = calls[0][0]
-                k_obs = next((k_ for k_ in range(len(a0) + 1) if len(a0) == len(all_args) and [repr(x_) for x_ in a0[k_:]] == [repr(x_) for x_ in all_args[k_:]]), None)
-                if k_obs is None or not all(isinstance(x_, str) for x_ in all_args[:k_obs]):
-                    split_t = "(Some Err)"          # the function did not receive the arguments it was given
-                else:
-                    split_t = (f"(Some (Ok ({cq_list(cq_s(x_) for x_ in all_args[:k_obs])}, "
-                               f"{cq_list(cq_parg(j, a_) for j, a_ in enumerate(all_args) if j >= k_obs)})))")
-            else:
-                split_t = "None"
-            outs = {"dict": ["u", "v"], "dotted": (["u", "out.a", "out.b"] if dotted_variant == 0 else ["out_n", "out.a", "u", "outmax", "out.b"])}.get(shape)
-            obs_cols_t = "None"
-            if outs is not None and res[0] == "ok" and len(nf):
-                out_fr = attempt(lambda: nf.reduce(func, *sel, *extra, **kwargs))
-                if out_fr[0] == "ok":
-                    oc = []
-                    for c_ in out_fr[1].columns:
-                        col_ = out_fr[1][c_]
-                        if hasattr(col_.array, "chunked_array"):
-                            oc.append(f"(ONest {cq_s(str(c_))} {cq_list(cq_s(f_) for f_ in col_.nest.fields)})")
+                def run():
+                    out = nf.reduce(func, *sel, *extra, **kwargs)
+                    assert isinstance(out, NestedFrame), "not a NestedFrame"
+                    assert len(calls) == len(nf), f"{len(calls)} calls for {len(nf)} rows"
+                    assert [repr(v) for v in out.index] == [repr(v) for v in labels], "result index differs from the input's (or rows multiplied)"
+                    m = len(nf)
+                    if shape == "scalar":
+                        assert [int(v) for v in out.iloc[:, 0]] == [k * 10 for k in range(m)] if m else True
+                    elif shape == "tuple":
+                        assert m == 0 or ([int(v) for v in out.iloc[:, 0]] == list(range(m)) and [float(v) for v in out.iloc[:, 1]] == [k + 0.5 for k in range(m)])
+                    elif shape == "dict":
+                        assert m == 0 or ([int(v) for v in out["u"]] == list(range(m)) and list(out["v"]) == [f"s{k}" for k in range(m)])
+                    elif m:
+                        assert [int(v) for v in out["u"]] == list(range(m))
+                        if dotted_variant == 1:
+                            assert [int(v) for v in out["out_n"]] == [k + 1 for k in range(m)] and [int(v) for v in out["outmax"]] == [2 * k for k in range(m)], \
+                                "plain outputs lost or changed"
+                        assert sorted(map(str, out.columns)) == sorted(["u", "out"] + (["out_n", "outmax"] if dotted_variant else [])), \
+                            f"result columns {list(out.columns)}: not exactly what the function returned"
+                        assert "out" in out.nested_columns and list(out["out"].nest.fields) == ["a", "b"], "dotted outputs not packed into a nested column"
+                        got = out["out"].array.chunked_array.to_pylist()
+                        assert [None if g is None else (list(g["a"]), list(g["b"])) for g in got] == \
+                            [(list(range(k % 3)), [x * 2.0 for x in range(k % 3)]) for k in range(m)], "packed outputs differ from what the function returned"
+                    return True
+                res = attempt(run)
+                unchanged = fo.snapshot(nf) == before
+                # the recorded calls -> coq
+                otherv = nf["other"].array.chunked_array.to_pylist()
+                ok_extra = True
+                impl_calls = []
+                for j, (a, kw) in enumerate(calls):
+                    ncol = len(sel)
+                    ok_extra = ok_extra and len(a) == ncol + len(extra) and [repr(x_) for x_ in a[ncol:]] == [repr(x_) for x_ in extra] and kw == kwargs
+                    rowt = []
+                    for c, v in zip(sel, a[:ncol]):
+                        if c in ("x", "y") or c == dup:
+                            rowt.append("(RBase (%s))" % cq_val(tok(v if not isinstance(v, np.generic) else v.item())))
+                        elif c == "other.q":
+                            rowt.append("(RNested %s)" % cq_vals(arr_tokens(v) if (j < len(otherv) and otherv[j] is not None) else []))
                         else:
-                            oc.append(f"(OBase {cq_s(str(c_))})")
-                    obs_cols_t = f"(Some {cq_list(oc)})"
-            glue_t = (f"chk_reduce_glue {cq_list(cq_s(x_) for x_ in known_strs)} {args_t} {split_t} "
-                      f"{cq_list(cq_s(x_) for x_ in (outs or []))} {obs_cols_t}")
-            term = (f"(let R := {fo.cq_nrows(rows)} in let C := {cq_list(cols_t)} in let I : list (list rarg) := {impl_t} in "
-                    f"[calls_eqb (denan_calls (m_reduce_calls R C)) I && {glue_t}; "
-                    f"calls_eqb (denan_calls (spec_reduce_calls R C)) I && {cq_bool(res[0] == 'ok' and unchanged and ok_extra and py_other_ok)}; true; true])")
-            args = {"columns": sel, "extra": extra, "kwargs": kwargs, "shape": shape}
-            nontrivial = any(rows)
-        else:
-            by = rng.choice([nm for nm, t in schema if t in ("string", "int64", "bool")] or [None]) if kind == "count_by" else None
-            join = rng.random() < 0.5
-            if by is None:
-                kind = "count"
+                            rowt.append("(RNested %s)" % cq_vals(arr_tokens(v) if (j < len(rows) and rows[j] is not None) else []))
+                    impl_calls.append(cq_list(rowt))
+                # model columns: the nested column 'n' is rows; 'other' is a second nested column: handled as its own rows
+                # (one nested column per Coq call list: columns of `other` are checked python-side)
+                cols_t = []
+                for c in sel:
+                    if dup and c == dup:
+                        cols_t.append("(CBaseCol %s)" % cq_vals([1000 + j for j in range(len(rows))]))
+                    elif c == "x":
+                        cols_t.append("(CBaseCol %s)" % cq_vals(list(range(len(rows)))))
+                    elif c == "y":
+                        cols_t.append("(CBaseCol %s)" % cq_vals(list(nf["y"])))
+                    elif c == "other.q":
+                        cols_t.append("(CBaseCol %s)" % cq_list("VNull" for _ in rows))     # placeholder, compared python-side
+                    else:
+                        cols_t.append(f"(CNestField {names.index(c.split('.')[1])})")
+                # replace placeholder positions in impl by RBase VNull and verify those python-side
+                py_other_ok = True
+                fixed_calls = []
+                for j, (a, kw) in enumerate(calls):
+                    parts = []
+                    for c, v in zip(sel, a[:len(sel)]):
+                        if c == "other.q":
+                            want = [] if (j >= len(otherv) or otherv[j] is None) else list(otherv[j]["q"])
+                            got = arr_tokens(v) if (j < len(otherv) and otherv[j] is not None) else []
+                            py_other_ok = py_other_ok and [None if (isinstance(g, float) and g != g) else g for g in got] == want
+                            parts.append("(RBase VNull)")
+                        else:
+                            parts.append(None)
+                    fixed_calls.append(parts)
+                impl_rows = []
+                for j, (a, kw) in enumerate(calls):
+                    rowt = []
+                    for idx, (c, v) in enumerate(zip(sel, a[:len(sel)])):
+                        if fixed_calls[j][idx] is not None:
+                            rowt.append(fixed_calls[j][idx])
+                        elif c in ("x", "y") or c == dup:
+                            rowt.append("(RBase (%s))" % cq_val(tok(v.item() if isinstance(v, np.generic) else v)))
+                        else:
+                            rowt.append("(RNested %s)" % cq_vals(arr_tokens(v) if (j < len(rows) and rows[j] is not None) else []))
+                    impl_rows.append(cq_list(rowt))
+                impl_t = cq_list(impl_rows)
+                # the glue around the calls (Reduce2.v): which arguments were taken for columns, how the outputs were packed
+                all_args = list(sel) + list(extra)
 
-            def run_c():
-                out = count_nested(nf, "n", by=by, join=join)
-                assert isinstance(out, pd.DataFrame)        # that every table is a NestedFrame is C18's business
-                assert [repr(v) for v in out.index] == [repr(v) for v in labels], "not one output row per input row"
-                if join:
-                    assert [int(v) for v in out["x"]] == list(range(len(rows)))
+                def cq_s(x):
+                    return "[" + "; ".join(str(ord(ch)) for ch in x) + "]"
+
+                def cq_parg(j, a_):
+                    return f"(AStr {cq_s(a_)})" if isinstance(a_, str) else f"(AOther {j})"
+                known_strs = sorted({a_ for a_ in all_args if isinstance(a_, str) and (a_ in ("x", "y", "w", "other.q") or a_ == dup or (a_.startswith("n.") and a_[2:] in names))})
+                args_t = cq_list(cq_parg(j, a_) for j, a_ in enumerate(all_args))
+                if calls:
+                    a0 = calls[0][0]
+                    k_obs = next((k_ for k_ in range(len(a0) + 1) if len(a0) == len(all_args) and [repr(x_) for x_ in a0[k_:]] == [repr(x_) for x_ in all_args[k_:]]), None)
+                    if k_obs is None or not all(isinstance(x_, str) for x_ in all_args[:k_obs]):
+                        split_t = "(Some Err)"          # the function did not receive the arguments it was given
+                    else:
+                        split_t = (f"(Some (Ok ({cq_list(cq_s(x_) for x_ in all_args[:k_obs])}, "
+                                   f"{cq_list(cq_parg(j, a_) for j, a_ in enumerate(all_args) if j >= k_obs)})))")
+                else:
+                    split_t = "None"
+                outs = {"dict": ["u", "v"], "dotted": (["u", "out.a", "out.b"] if dotted_variant == 0 else ["out_n", "out.a", "u", "outmax", "out.b"])}.get(shape)
+                obs_cols_t = "None"
+                if outs is not None and res[0] == "ok" and len(nf):
+                    out_fr = attempt(lambda: nf.reduce(func, *sel, *extra, **kwargs))
+                    if out_fr[0] == "ok":
+                        oc = []
+                        for c_ in out_fr[1].columns:
+                            col_ = out_fr[1][c_]
+                            if hasattr(col_.array, "chunked_array"):
+                                oc.append(f"(ONest {cq_s(str(c_))} {cq_list(cq_s(f_) for f_ in col_.nest.fields)})")
+                            else:
+                                oc.append(f"(OBase {cq_s(str(c_))})")
+                        obs_cols_t = f"(Some {cq_list(oc)})"
+                glue_t = (f"chk_reduce_glue {cq_list(cq_s(x_) for x_ in known_strs)} {args_t} {split_t} "
+                          f"{cq_list(cq_s(x_) for x_ in (outs or []))} {obs_cols_t}")
+                term = (f"(let R := {fo.cq_nrows(rows)} in let C := {cq_list(cols_t)} in let I : list (list rarg) := {impl_t} in "
+                        f"[calls_eqb (denan_calls (m_reduce_calls R C)) I && {glue_t}; "
+                        f"calls_eqb (denan_calls (spec_reduce_calls R C)) I && {cq_bool(res[0] == 'ok' and unchanged and ok_extra and py_other_ok)}; true; true])")
+                args = {"columns": sel, "extra": extra, "kwargs": kwargs, "shape": shape}
+                nontrivial = any(rows)
+            else:
+                by = rng.choice([nm for nm, t in schema if t in ("string", "int64", "bool")] or [None]) if kind == "count_by" else None
+                join = rng.random() < 0.5
                 if by is None:
-                    return [int(v) for v in out["n_n"]]
-                j = names.index(by)
-                for col in [c for c in out.columns if str(c).startswith("n_n_")]:
-                    val = str(col)[len("n_n_"):]
-                    for r, v in zip(rows, out[col].tolist()):
-                        want = sum(1 for rec in (r or []) if str(rec[j]) == val)
-                        got = 0 if (v is None or v != v) else int(v)
-                        assert got == want, f"count of {val!r} differs"
-                # the count table as (value heading the column, cells): for the Coq model CountBy.m_count_by
-                distinct = []
-                for r in rows:
-                    for rec in (r or []):
-                        if rec[j] is not None and not any(repr(rec[j]) == repr(d) for d in distinct):
-                            distinct.append(rec[j])
-                obs = []
-                for col in [c for c in out.columns if str(c).startswith("n_n_")]:
-                    val = str(col)[len("n_n_"):]
-                    match = [d for d in distinct if str(d) == val]
-                    assert len(match) == 1, f"count column {col!r} does not belong to exactly one value"
-                    cells = ["None" if (v is None or v != v) else f"(Some {int(v)})" for v in out[col].tolist()]
-                    obs.append(f"({cq_val(tok(match[0]))}, {cq_list(cells)})")
-                count_obs[0] = (j, cq_list(obs))
-                return [len(r or []) for r in rows]
-            count_obs = [None]
-            res = attempt(run_c)
-            unchanged = fo.snapshot(nf) == before
-            impl = f"(Some {core.cq_nats(res[1])})" if res[0] == "ok" else "None"
-            cb = f"chk_count_by R {count_obs[0][0]} {count_obs[0][1]}" if (by is not None and count_obs[0] is not None) else "[true; true; true; true]"
-            term = (f"(let R := {fo.cq_nrows(rows)} in let CB := {cb} in "
-                    f"[match {impl} with Some l => list_eqb Nat.eqb (m_count_nested R) l | None => false end && nth 0 CB false; "
-                    f"match {impl} with Some l => list_eqb Nat.eqb (map (fun r => length (recs r)) R) l | None => false end && {cq_bool(unchanged)} && nth 1 CB false; true; true])")
-            args = {"by": by, "join": join}
-            nontrivial = any(rows)
-        cases.append({
-            "stream": "reduce", "op": kind, "term": term,
-            "input": dict(ao.input_repr(inp), labels=[repr(x) for x in labels], args={k: repr(v) for k, v in args.items()}),
-            "impl_repr": str(res)[:400],
-            "meta": ao.base_meta(inp, impl_raised=res[0] == "err", repeated_labels=repeated, label_kind=label_kind,
-                                 has_missing=any(r is None for r in rows), join=bool(args.get("join")), by=args.get("by") is not None,
-                                 dotted=args.get("shape") == "dotted"),
-            "sig": [kind, args.get("shape"), len(args.get("columns", [])), inp["recipe"], label_kind, len(rows)],
-            "trivial": not nontrivial,
-            "hist": {"op": kind, "shape": str(args.get("shape")), "layout": inp["recipe"], "labels": label_kind, "raised": res[0] == "err"}})
+                    kind = "count"
+
+                def run_c():
+                    out = count_nested(nf, "n", by=by, join=join)
+                    assert isinstance(out, pd.DataFrame)        # that every table is a NestedFrame is C18's business
+                    assert [repr(v) for v in out.index] == [repr(v) for v in labels], "not one output row per input row"
+                    if join:
+                        assert [int(v) for v in out["x"]] == list(range(len(rows)))
+                    if by is None:
+                        return [int(v) for v in out["n_n"]]
+                    j = names.index(by)
+                    for col in [c for c in out.columns if str(c).startswith("n_n_")]:
+                        val = str(col)[len("n_n_"):]
+                        for r, v in zip(rows, out[col].tolist()):
+                            want = sum(1 for rec in (r or []) if str(rec[j]) == val)
+                            got = 0 if (v is None or v != v) else int(v)
+                            assert got == want, f"count of {val!r} differs"
+                    # the count table as (value heading the column, cells): for the Coq model CountBy.m_count_by
+                    distinct = []
+                    for r in rows:
+                        for rec in (r or []):
+                            if rec[j] is not None and not any(repr(rec[j]) == repr(d) for d in distinct):
+                                distinct.append(rec[j])
+                    obs = []
+                    for col in [c for c in out.columns if str(c).startswith("n_n_")]:
+                        val = str(col)[len("n_n_"):]
+                        match = [d for d in distinct if str(d) == val]
+                        assert len(match) == 1, f"count column {col!r} does not belong to exactly one value"
+                        cells = ["None" if (v is None or v != v) else f"(Some {int(v)})" for v in out[col].tolist()]
+                        obs.append(f"({cq_val(tok(match[0]))}, {cq_list(cells)})")
+                    count_obs[0] = (j, cq_list(obs))
+                    return [len(r or []) for r in rows]
+                count_obs = [None]
+                res = attempt(run_c)
+                unchanged = fo.snapshot(nf) == before
+                impl = f"(Some {core.cq_nats(res[1])})" if res[0] == "ok" else "None"
+                cb = f"chk_count_by R {count_obs[0][0]} {count_obs[0][1]}" if (by is not None and count_obs[0] is not None) else "[true; true; true; true]"
+                term = (f"(let R := {fo.cq_nrows(rows)} in let CB := {cb} in "
+                        f"[match {impl} with Some l => list_eqb Nat.eqb (m_count_nested R) l | None => false end && nth 0 CB false; "
+                        f"match {impl} with Some l => list_eqb Nat.eqb (map (fun r => length (recs r)) R) l | None => false end && {cq_bool(unchanged)} && nth 1 CB false; true; true])")
+                args = {"by": by, "join": join}
+                nontrivial = any(rows)
+            cases.append({
+                "stream": "reduce", "op": kind, "term": term,
+                "input": dict(ao.input_repr(inp), labels=[repr(x) for x in labels], args={k: repr(v) for k, v in args.items()}),
+                "impl_repr": str(res)[:400],
+                "meta": ao.base_meta(inp, impl_raised=res[0] == "err", repeated_labels=repeated, label_kind=label_kind,
+                                     has_missing=any(r is None for r in rows), join=bool(args.get("join")), by=args.get("by") is not None,
+                                     dotted=args.get("shape") == "dotted"),
+                "sig": [kind, args.get("shape"), len(args.get("columns", [])), inp["recipe"], label_kind, len(rows)],
+                "trivial": not nontrivial,
+                "hist": {"op": kind, "shape": str(args.get("shape")), "layout": inp["recipe"], "labels": label_kind, "raised": res[0] == "err"}})
+        except Exception:  # noqa: BLE001
+            cases.append(_uninterpretable(i, 'C10'))
     for k, c in enumerate(cases):
         c["cid"] = k
     return cases
